@@ -222,7 +222,7 @@ def scenario(name, family, variants, files=None, ops=None, init=(), depth=2, tag
 
 
 def standard_ops(variants, files, js=(1, 3), with_faults=True, with_rm=True, targets_extra=(), touch=False,
-                 fault_modes=(({"code": 1}), ({"code": 1, "touch": True})), ks=(1,), max_fault_stmts=None,
+                 fault_modes=(({"code": 1}), ({"code": 200, "touch": True})), ks=(1,), max_fault_stmts=None,
                  pair_faults=False, rm_depfiles=False):
     """A generic operation alphabet for a scenario (see DESIGN.md 5/C01)."""
     v0 = variants[0]
